@@ -16,7 +16,7 @@ RULE = ("phase 1 populates a filesystem store through a writable backend (seeded
 ASSUMPTIONS = ["CPython audit events cover every mutating file operation", "force_local (defined to override the cluster runner) is not used with the null runner"]
 COMPONENTS = {"real": ["storage backends, runner backends, MementoFunction call path", "tmpfs", "audit-hook FS seam"],
               "stub": ["uuid4 (seeded)", "clock (virtual)"]}
-REACH = ["ro_metadata_with_data_attempts", "ro_ops", "calls_served", "calls_executed", "ro_rejections", "null_storage_calls", "null_runner_calls", "mutation_events_armed"]
+REACH = ["ro_on_damaged_store", "ro_metadata_with_data_attempts", "ro_ops", "calls_served", "calls_executed", "ro_rejections", "null_storage_calls", "null_runner_calls", "mutation_events_armed"]
 
 
 def gen_ro_ops(rng, n, knobs):
@@ -53,8 +53,18 @@ def cases(tier, seed):
         kn = storeops.gen_knobs(rng, backends=("fs", "fs+cache"))
         pop = storeops.gen_ops(rng, rng.randrange(4, 25), kn, "c07")
         pop = [o for o in pop if o[0] != "restart"]
-        out.append({"seed": s, "mode": "read-only", "knobs": kn, "via_config": rng.random() < 0.5, "populate": pop,
-                    "ops": gen_ro_ops(rng, rng.randrange(3, 30), kn)})
+        case = {"seed": s, "mode": "read-only", "knobs": kn, "via_config": rng.random() < 0.5, "populate": pop,
+                "ops": gen_ro_ops(rng, rng.randrange(3, 30), kn)}
+        if rng.random() < 0.35:
+            # the store being opened read-only was damaged earlier: some writes of the populate phase hit reported I/O errors
+            # (empty / truncated link files, orphan objects)
+            faults = {}
+            for oi, op in enumerate(pop):
+                if op[0] == "memoize" and rng.random() < 0.4:
+                    v = rng.choice([("error-first-write", {}), ("short-error", {"cut": "half"}), ("short-error", {"cut": "allbut1"}), ("error-before", {})])
+                    faults[str(oi)] = dict(variant=v[0], k=rng.randrange(1, 14), errno="ENOSPC", **v[1])
+            case["populate_faults"] = faults
+        out.append(case)
     return out
 
 
@@ -67,7 +77,11 @@ def _exec_ro(case):
         W = storeops.World(root, kn)
         log = []
         model = storeops.DictStore()
-        v0, st0 = storeops.run_ops(W, case["populate"], set(), log.append, model=model)
+        if case.get("populate_faults"):
+            simfs.arm(W.roots())
+        v0, st0 = storeops.run_ops(W, case["populate"], set(), log.append, model=model, faults=case.get("populate_faults"))
+        simfs.disarm()
+        damaged = st0.get("memoize_failed_with_io_error", 0)
         if v0:
             emit({"viol": [], "stats": {"populate_diverged": 1}, "log": log})
             return
@@ -80,7 +94,7 @@ def _exec_ro(case):
             return
         before = simfs.snapshot_tree(root)
         simfs.arm(W.roots(), intolerant=True)
-        v, st = storeops.run_ops(W, case["ops"], {"ro"}, log.append, model=model)
+        v, st = storeops.run_ops(W, case["ops"], {"ro", "lenient"} if damaged else {"ro"}, log.append, model=model)
         simfs.disarm()
         after = simfs.snapshot_tree(root)
         if before != after and not v:
@@ -89,6 +103,8 @@ def _exec_ro(case):
         st["ro_ops"] = len(log) - len(case["populate"])
         st["ro_rejections"] = sum(1 for o in log if o[2] == "rejected")
         st["mutation_events_armed"] = 1
+        if damaged:
+            st["ro_on_damaged_store"] = 1
         emit({"viol": [[c, f, d] for c, f, d in v], "stats": st, "log": log})
     try:
         ev, _ = core.lifetime(body)
